@@ -119,6 +119,10 @@ def step (ts : List String) : String :=
     match Cherab.Periodic.symbolOf (pN z), Cherab.Periodic.nameOf (pN z) with
     | some s, some n => s!"{s} {n}"
     | _, _ => "none"
+  | ["hisotopes"] =>
+    " ".intercalate (Cherab.Periodic.hydrogenIsotopesCoded.map fun r => s!"{r.1}:{r.2.1}:{r.2.2}")
+  | ["named", z, en, es, a, n, sy] =>
+    fB (Cherab.Periodic.isotopeNamedAfter (pN z) (pN en) (pN es) (pN a) (pN n) (pN sy))
   | ["lower", c] => toString (lower (pN c))
   | ["strint", n] => toString (strInt (pI n))
   | ["cat", a, b] => toString (cat (pN a) (pN b))
